@@ -27,7 +27,7 @@ def register(R):
     for ent, field in (("vehicles", "get_vehicles"), ("requests", "get_requests"), ("stations", "get_stations"), ("bases", "get_bases")):
         s = R.spec(SS + field)
         s.opaque = True
-        s.requires("plain_listing", lambda a: And(a.filter_function is None, a.sort_key is None))
+        s.requires("plain_listing", lambda a: And(v_is_none(a.filter_function), v_is_none(a.sort_key)))
         s.requires("ids", lambda a: ids_ok(a.self))
         s.ensures("entries_in_id_order", (lambda ent: lambda a, r: listing_ok(r, getattr(a.self, ent)))(ent), ("C01", "C20", "C02"))
         s.ensures("all_listed", (lambda ent: lambda a, r: r.len() == Sym(IntT, card(getattr(a.self, ent))))(ent), ("C01",))
@@ -58,3 +58,73 @@ def register(R):
                    forall([j], Implies(And(j >= i, j < xs.len()), acc.vehicles.get(at(xs, j).id) == some(at(xs, j)))),
                    listing_ok(xs, s0.vehicles))
     R.loop(k, "reduce", 0, acc_type=SIM, props=("C20", "C02"), invariant=fold_inv)
+
+    # ------------------------------------------------------------ perform_vehicle_state_updates (C02 top, C18 order)
+    VEH = world.class_ty("Vehicle")
+    VSEQ = SeqTy(VEH)
+    pk = SSO + "perform_vehicle_state_updates"
+    sk = pk + "._sort_by_vehicle_state"
+
+    def queueing(v):
+        return v.vehicle_state.is_a("ChargeQueueing")
+
+    def qkey_lt(v1, v2):
+        """(enqueue_time, id) of v1 strictly before that of v2"""
+        t1 = v1.vehicle_state.as_a("ChargeQueueing").enqueue_time
+        t2 = v2.vehicle_state.as_a("ChargeQueueing").enqueue_time
+        return Or(t1 < t2, And(t1 == t2, v1.id < v2.id))
+
+    s = R.spec(sk, arg_types={"vs": VSEQ}, ret=VSEQ)
+    s.opaque = True
+    s.outer_arg_types = {}
+    s.requires("distinct_ids", lambda a: forall([bound(IntT, "i_d"), bound(IntT, "j_d")], Implies(
+        And(bound(IntT, "i_d") >= 0, bound(IntT, "i_d") < bound(IntT, "j_d"), bound(IntT, "j_d") < a.vs.len()),
+        at(a.vs, bound(IntT, "i_d")).id != at(a.vs, bound(IntT, "j_d")).id)))
+
+    def sort_post(a, r):
+        i, j = bound(IntT, "i_so"), bound(IntT, "j_so")
+        return And(
+            r.len() == a.vs.len(),
+            # same vehicles (each result element is an input element; ids stay pairwise distinct)
+            forall([i], Implies(And(i >= 0, i < r.len()), exists([j], And(j >= 0, j < a.vs.len(), at(r, i) == at(a.vs, j))))),
+            forall([i, j], Implies(And(i >= 0, i < j, j < r.len()), at(r, i).id != at(r, j).id)))
+    s.ensures("same_vehicles", sort_post, ("C01", "C02", "C18"))
+
+    def order_post(a, r):
+        i, j = bound(IntT, "i_or"), bound(IntT, "j_or")
+        return forall([i, j], Implies(And(i >= 0, i < j, j < r.len()), And(
+            # queueing vehicles are stepped after all others (so plugs freed in this step are visible to the queue) ...
+            Implies(queueing(at(r, i)), queueing(at(r, j))),
+            # ... in order of arrival in the queue, ties broken by vehicle id (C18), the others by id (C01)
+            Implies(And(queueing(at(r, i)), queueing(at(r, j))), qkey_lt(at(r, i), at(r, j))),
+            Implies(And(Not(queueing(at(r, i))), Not(queueing(at(r, j)))), at(r, i).id < at(r, j).id))))
+    s.ensures("queue_last_fifo", order_post, ("C18", "C01"))
+    s.no_raise(("C18",))
+
+    s = R.spec(pk, ret=SIM)
+    s.opaque = True
+    s.requires("wf", lambda a: wf(a.simulation_state)).requires("inv02", lambda a: inv02(a.simulation_state))
+
+    def pvs_post(a, r):
+        return And(wf(r), inv02(r), r.sim_time == a.simulation_state.sim_time,
+                   r.sim_timestep_duration_seconds == a.simulation_state.sim_timestep_duration_seconds,
+                   r.applied_instructions == a.simulation_state.applied_instructions)
+    s.ensures("counts_matched_after_all_updates", pvs_post, ("C02", "C15", "C08"))
+    s.no_raise(("C02",))
+
+    def pvs_inv(v, i, xs, v0):
+        j, k2 = bound(IntT, "j_pv"), bound(IntT, "k_pv")
+        s0 = v0.simulation_state
+        sc = v.simulation_state
+        return And(wf(sc), inv02(sc), sc.sim_time == s0.sim_time,
+                   sc.sim_timestep_duration_seconds == s0.sim_timestep_duration_seconds,
+                   sc.applied_instructions == s0.applied_instructions,
+                   # vehicles not yet stepped are exactly as they were when the tuple was captured
+                   forall([j], Implies(And(j >= i, j < xs.len()), sc.vehicles.get(at(xs, j).id) == some(at(xs, j)))),
+                   forall([j, k2], Implies(And(j >= 0, j < k2, k2 < xs.len()), at(xs, j).id != at(xs, k2).id)))
+    R.loop(pk, "for", 0, props=("C02",), invariant=pvs_inv)
+
+    # ------------------------------------------------------------ tick (C15)
+    s = R.spec("nrel/hive/state/simulation_state/simulation_state_ops.py::tick", ret=SIM)
+    s.ensures("advances_by_exactly_one_step", lambda a, r: r == a.sim._replace(sim_time=a.sim.sim_time + a.sim.sim_timestep_duration_seconds), ("C15",))
+    s.no_raise(("C15",))
